@@ -96,7 +96,9 @@ def dspacing_from_tof(
         elem_unit(tof) / sc.units.angstrom / elem_unit(Ltotal),
         copy=False,
     )
-    return 1 / as_float_type(c * Ltotal * sc.sin(two_theta / 2), tof) * tof
+    # Evaluate the sine in the precision of the result (like the other angle kernels).
+    sin_theta = sc.sin(as_float_type(two_theta, tof) / 2)
+    return 1 / as_float_type(c * Ltotal * sin_theta, tof) * tof
 
 
 def _energy_constant(energy_unit: sc.Unit, tof: Variable, length: Variable):
@@ -131,7 +133,9 @@ def energy_from_tof(*, tof: Variable, Ltotal: Variable) -> Variable:
         Has unit meV.
     """
     c = _energy_constant(sc.units.meV, tof, Ltotal)
-    return as_float_type(c * Ltotal**2, tof) / tof ** sc.scalar(
+    # Square the flight path in double precision (like c): a single-precision
+    # Ltotal must not limit the accuracy of a double-precision result.
+    return as_float_type(c * as_float_type(Ltotal, c) ** 2, tof) / tof ** sc.scalar(
         2, dtype=elem_dtype(tof)
     )
 
